@@ -2,10 +2,13 @@
    Property theorems only; each is closed by `exact` of a lemma from proofs/C04_*.v.
    (H) history level: model/C04_model.v, explicit clock [now] (ns) per request.
    (I) interleaving level: model/C04_race.v, steps = the yield points of the instrumented
-       unix_volume.go; every interleaving of a TOUCH/PUT request with a DELETE request. *)
+       unix_volume.go; every interleaving of a TOUCH/PUT request with a DELETE request.
+   (D) delayed-write level: model/C04_delay.v, the step programs of (I) executed at explicit clock values
+       (time passes while the request waits for the Serialize lock, copies data, ...). *)
 From Coq Require Import ZArith NArith List String Bool.
 From AV Require Import lib.Str model.C04_model model.C04_run model.C04_old model.C04_race model.C04_race_run
-  proofs.C04_proofs proofs.C04_frame_proofs proofs.C04_spec_proofs proofs.C04_meets_proofs proofs.C04_race_proofs.
+  proofs.C04_proofs proofs.C04_frame_proofs proofs.C04_spec_proofs proofs.C04_meets_proofs proofs.C04_race_proofs
+  model.C04_delay model.C04_delay_run proofs.C04_delay_proofs.
 Import ListNotations.
 Local Open Scope Z_scope.
 
@@ -163,3 +166,59 @@ Theorem C04_example_schedule :
             a_ok s = true /\ contract s = true.
 Proof. exact ex_touch_first. Qed.
 Print Assumptions C04_example_schedule.
+
+(* ================= (D) ================= *)
+Local Open Scope Z_scope.
+
+(* WHEN the protecting timestamp is taken.  A timed run gives the clock value at which the request went
+   on from each of its yield points (filesystem calls, every write of the copy loop, v.lock = the
+   Serialize mutex); [trun] accepts exactly the label sequence of the scenario, the clock values are
+   arbitrary.  For every prior copy (absent, intact, corrupt, fresh), PUT and TOUCH, both trash modes:
+   the stored timestamp of an acknowledged request is the clock value at the LAST yield point before the
+   commit phase (Chtimes, flock of the replaced file, rename, unlock, close) -- in WriteBlock after the
+   temp file is complete and closed, in Touch after the flock is held.  No time spent earlier -- waiting
+   for the Serialize lock, creating or writing the temp file -- is missing from the protection. *)
+Theorem C04_delayed_timestamp : forall p put rm m0 steps T,
+  trun (tinit p put rm m0) steps = Some T -> a_ok (t_s T) = true ->
+  exists j t, path (t_s T) = Some j /\ last_pre None steps = Some t /\ mtime_of T j = t.
+Proof. exact delayed_timestamp. Qed.
+Print Assumptions C04_delayed_timestamp.
+
+(* hence a DELETE at clock u (the Trash program of (I), with Fresh <-> u - mtime < ttl) less than ttl
+   after that moment leaves the acknowledged block at its path -- after a PUT with the right content *)
+Theorem C04_delayed_ack_survives : forall p put rm m0 steps T t u ttl,
+  trun (tinit p put rm m0) steps = Some T -> a_ok (t_s T) = true -> last_pre None steps = Some t ->
+  u - t < ttl ->
+  present (after_trash T u ttl) = true /\
+  (put = true -> cont_good (at_path (after_trash T u ttl)) = true) /\
+  pb (after_trash T u ttl) = B_done BNoop.
+Proof. exact delayed_ack_survives. Qed.
+Print Assumptions C04_delayed_ack_survives.
+
+(* and one that arrives ttl or more after it trashes the block (the timestamp is not later either) *)
+Theorem C04_delayed_expiry_trashes : forall p put rm m0 steps T t u ttl,
+  trun (tinit p put rm m0) steps = Some T -> a_ok (t_s T) = true -> last_pre None steps = Some t ->
+  ttl <= u - t ->
+  present (after_trash T u ttl) = false /\ pb (after_trash T u ttl) = B_done BTrashed.
+Proof. exact delayed_expiry_trashes. Qed.
+Print Assumptions C04_delayed_expiry_trashes.
+
+(* the boolean oracle of the delayed-write cases is the Prop-level statement ... *)
+Theorem C04_delay_spec_b_reflects : forall c, dspec_b c = true <-> DSpec c.
+Proof. exact dspec_b_iff. Qed.
+Print Assumptions C04_delay_spec_b_reflects.
+
+(* ... and the model's own behaviour satisfies it: every scenario, every timed run, every DELETE time *)
+Theorem C04_delay_model_meets_spec : forall p put rm ttl m0 steps T u,
+  trun (tinit p put rm m0) steps = Some T -> DSpec (model_case p put rm ttl m0 steps T u).
+Proof. exact delay_model_meets_spec. Qed.
+Print Assumptions C04_delay_model_meets_spec.
+
+(* regression witness about a VARIANT model only (t_early = WriteBlock reads the clock when it creates
+   the temp file, i.e. before the Serialize lock and the copy): there the statement is false *)
+Theorem C04_variant_early_timestamp_refuted :
+  exists T t u ttl,
+    trun (tinit_gen PAbsent true false 0 true) early_steps = Some T /\ a_ok (t_s T) = true /\
+    last_pre None early_steps = Some t /\ u - t < ttl /\ present (after_trash T u ttl) = false.
+Proof. exact delayed_early_ts_refuted. Qed.
+Print Assumptions C04_variant_early_timestamp_refuted.
